@@ -64,6 +64,20 @@ class Malformed(Harness):
                     rows[bad] = rows[bad][:-1] if delta < 0 else rows[bad] + [1]
                     for lazy, mode, chunked in ((True, "seek", False), (False, "seek", False), (True, "seek", True)):
                         out.append(dict(fmt=fmt, rows=rows, bad=[bad, "ncols", delta], lazy=lazy, mode=mode, chunked=chunked))
+        # float columns (bedGraph value): plain decimals, and a value in scientific notation before / after the offending record (the two
+        # notations are parsed in separate batches); list-valued columns (BED12 block sizes)
+        for exp in ({}, {"0_3": 1}, {"2_3": 1}, {"0_3": 1, "1_3": 1}):
+            for bad in ((1, 3, 0), (2, 3, 2), (0, 3, 1), (1, 3, 2)):
+                if f"{bad[0]}_3" in exp and bad[2] == 1:
+                    continue
+                dots = {k: -1 for k in exp}
+                for lazy, mode, chunked in ((True, "seek", False), (False, "seek", True)):
+                    out.append(dict(fmt="bedgraph", rows=[[1, 1, 1, 3]] * 3, exp=exp, dot=dots, bad=list(bad), lazy=lazy, mode=mode, chunked=chunked))
+        L = {"widths": [1, 1], "trailing": False}
+        for bad in ((0, 10, 0), (1, 10, 2), (2, 11, 0), (1, 11, 2)):
+            for lazy, mode, chunked in ((True, "seek", False), (False, "seek", True)):
+                out.append(dict(fmt="bed12", rows=[[1, 1, 1, 1, 1, 1, 1, 1, 1, 1, 3, 3]] * 3, lists={f"{r}_{c}": L for r in range(3) for c in (10, 11)},
+                                bad=list(bad), lazy=lazy, mode=mode, chunked=chunked))
         # signed values (ragged integer path) in the records before the offending one, in the same column
         rows = [[1, 2, 1], [1, 2, 2], [1, 3, 1]]
         for bad, col, pos in ((2, 1, 0), (2, 1, 1), (1, 1, 1), (2, 2, 0)):
@@ -125,6 +139,10 @@ class Malformed(Harness):
                 if kind == "oint" and skel["rows"][r][c] == 1:
                     bad = z3.And(bad, nv.t != 46)
                 ENGINE.assume(bad)
+            elif kind == "float":     # no digit, no '.', no exponent mark, no sign
+                ENGINE.assume(z3.And(z3.Or(nv.t < 48, nv.t > 57), nv.t != 46, nv.t != 101, nv.t != 69, nv.t != 43, nv.t != 45))
+            elif kind == "ilist":     # neither a digit nor the separator
+                ENGINE.assume(z3.And(z3.Or(nv.t < 48, nv.t > 57), nv.t != 44))
             else:   # strand
                 ENGINE.assume(z3.And(nv.t != 43, nv.t != 45, nv.t != 46))
         size = len(self._content(skel, _Zero(V)))
